@@ -1,9 +1,19 @@
 //! svh: searchlite verification harness. Drives the real code and records what it did; all
 //! verdicts are produced by TLC on the specifications in /verif/spec.
+mod conc;
+mod corrupt;
 mod crash;
+mod faults;
+mod ffi;
+mod frontends;
 mod fsmodel;
 mod history;
+mod http;
+mod relocate;
+mod robust;
+mod search;
 mod util;
+mod validate;
 
 fn main() {
   let argv: Vec<String> = std::env::args().collect();
@@ -15,6 +25,16 @@ fn main() {
   let res = match argv[1].as_str() {
     "history" => history::main(&args),
     "crash" => crash::main(&args),
+    "faults" => faults::main(&args),
+    "conc" => conc::main(&args),
+    "search" => search::main(&args),
+    "http" => http::main(&args),
+    "ffi" => ffi::main(&args),
+    "frontends" => frontends::main(&args),
+    "validate" => validate::main(&args),
+    "robust" => robust::main(&args),
+    "corrupt" => corrupt::main(&args),
+    "relocate" => relocate::main(&args),
     other => {
       eprintln!("unknown family {other}");
       std::process::exit(2);
